@@ -186,10 +186,14 @@ def parse_mir(text):
     while i < n:
         line = lines[i]
         m = _re_fn.match(line)
-        if not m or not line.endswith("{"):
+        mc = re.match(r"^const (.*promoted\[\d+\]): (.*) = \{$", line)
+        if mc:
+            header = f"{mc.group(1)}() -> {mc.group(2)}"
+        elif not m or not line.endswith("{"):
             i += 1
             continue
-        header = m.group(1)[:-1].rstrip()
+        else:
+            header = m.group(1)[:-1].rstrip()
         # name(params) -> ret
         p = header.find("(")
         # `<impl at ...>` contains no parens; but a name may start with '<' ... find first '(' at angle depth 0
